@@ -20,7 +20,7 @@ RULE = ("labellings = product of (orientation pattern, cycle shift, vertex-id ma
 BOUND = {"quick": "deviation bound 2 over 7 labelling classes on a 6-cell curved base; all 2^6/2^7 orientation patterns; all 720 permutations of 6 junction ids; all 120 insertion orders of a 5-cell sub-tissue",
          "thorough": "d=2 on 7- and 11-cell bases and on square3x3; all 2^11 orientation patterns; 720 permutations on two tissues; all insertion orders of two 5-cell sub-tissues"}
 ASSUMPTIONS = ["cells are inserted into the dict in construction order, as every parser does", "comparison tolerance 1e-9 (coefficients), 1e-8 x conditioning (tensions, pressures)"]
-REQUIRED_TAGS = {"all": ["orient", "shift", "vmap", "emap", "cids", "order", "eflip", "pressures_compared", "tensions_compared", "undetermined_non_unique_optimum"]}
+REQUIRED_TAGS = {"all": ["orient", "shift", "vmap", "emap", "cids", "order", "eflip", "pressures_compared", "tensions_compared", "undetermined_non_unique_optimum", "same_tensions_although_not_unique", "cell_without_internal_interface"]}
 
 
 def observe(at, cm, k, lab):
@@ -87,7 +87,14 @@ def compare(o1, o2):
         if o1["unique"] != o2["unique"]:
             viol.append({"what": "uniqueness of the optimum depends on the labelling"})
         tags.append("undetermined_non_unique_optimum")
-        return viol, tags
+        # every optimum is a legitimate answer, so differing tensions are no verdict; but the pressure step is a function of
+        # the tensions and the geometry alone: where the two labellings happen to return the same tensions, the pressures
+        # must agree as well
+        tol = 1e-8 * max(1.0, min(o1["cond"], 1e6))
+        dt = max([abs(o1["tension"][k] - o2["tension"][k]) for k in o1["tension"]] or [0.0])
+        if dt > 1e-12 or viol:
+            return viol, tags
+        tags.append("same_tensions_although_not_unique")
     tol = 1e-8 * max(1.0, min(o1["cond"], 1e6))
     dt = max([abs(o1["tension"][k] - o2["tension"][k]) for k in o1["tension"]] or [0.0])
     tags.append("tensions_compared")
@@ -192,8 +199,10 @@ class Labellings(ProductSystem):
         ax = self.axes(base)
         centre = {a: ax[a][0] for a in ax}
         tags = [a for a in cfg if cfg[a] != centre[a]]
+        if obs.get("prow") is not None and obs.get("pressure") and set(obs["pressure"]) - {c for pr in obs["prow"] for c in pr}:
+            tags.append("cell_without_internal_interface")
         cls = "|".join("%s:%s" % (a, fsutil.state_hash(cfg[a])[:5] if cfg[a] != centre[a] else "-") for a in sorted(cfg))
-        return {"viol": [], "tags": tags, "cls": cls, "obs": obs, "nontrivial": bool(tags)}
+        return {"viol": [], "tags": tags, "cls": cls, "obs": obs, "nontrivial": any(cfg[a] != centre[a] for a in cfg)}
 
     def check_pair(self, base, axis, cfg1, r1, cfg2, r2):
         viol, tags = compare(r1["obs"], r2["obs"])
@@ -231,6 +240,20 @@ def first_connected(base, n):
     return T.connected_subsets(at, min_size=n, max_size=n)[0]
 
 
+def first_with_hanging(base, n):
+    """a connected n-cell sub-tissue in which some cell touches no internal interface (its pressure column is dropped) while
+    the others still give a non-trivial system"""
+    at = bases.get(base)
+    from fsmc.ref import tangent as RT
+    for S in T.connected_subsets(at, min_size=n, max_size=n):
+        sub = T.sub_tissue(at, S)
+        internal = T.internal_interfaces(sub)
+        touched = {c for ii in internal for c in (sub["I"][ii]["L"], sub["I"][ii]["R"])}
+        if len(internal) >= 3 and any(c not in touched for c in sub["C"]) and len(RT.reference_system(sub)["rows"]) >= 2:
+            return S
+    raise RuntimeError("no %d-cell sub-tissue of %s with a cell outside every internal interface" % (n, base))
+
+
 def six_junction_tissue(base):
     """a connected sub-tissue with exactly 6 vertices of degree>=2 ... we need exactly six junction ids in the numbering:
     take the smallest connected sub-tissue whose abstract junction count is >= 6 and permute the first six ids"""
@@ -253,11 +276,12 @@ def build(tier, seed):
                 _Counting("orientations-all", [["v5x5", None, M, 1]], 1, ["orient_all"]),
                 _Counting("junction-perms-720", [["v5x5", None, M, 1]], 1, ["vperm720"]),
                 _Counting("insertion-orders-all", [["v5x5", None, M, 1]], 1, ["order_all"]),
-                _Counting("lattice-d1", [["square3x3", None, ["id"], 2]], 1, all_cl)]
+                _Counting("lattice-d1", [["square3x3", None, ["id"], 2]], 1, all_cl)]   # b6 contains a cell outside every internal interface
     b7 = first_connected("v6x5", 7)
     return [_Counting("labels-d2", [["v5x5", None, M, 2], ["v6x5", b7, M, 2], ["square3x3", None, ["id"], 2]], 2, all_cl),
             _Counting("labels-d1-unique", [["v6x5", None, M, 2], ["v6x6p%d" % (seed + 1), None, ["mc", 0.12, 0.05], 1]], 1, all_cl),
             _Counting("orientations-all", [["v5x5", None, M, 2], ["v6x5", None, ["mc", 0.12, 0.05], 1]], 1, ["orient_all"]),
             _Counting("junction-perms-720", [["v5x5", None, M, 1], ["v6x5", None, ["id"], 2]], 1, ["vperm720"]),
             _Counting("insertion-orders-all", [["v5x5", None, M, 2], ["v6x5", None, M, 1]], 1, ["order_all"]),
-            _Counting("labels-d3", [["v5x5", first_connected("v5x5", 5), M, 2]], 3, all_cl)]
+            _Counting("labels-d3", [["v5x5", first_connected("v5x5", 5), M, 2]], 3, all_cl),
+            _Counting("hanging-cell-d2", [["v6x5", first_with_hanging("v6x5", 8), ["mc", 0.12, 0.05], 1]], 2, all_cl)]
